@@ -38,19 +38,19 @@ Arguments p_commit_parse {G C}. Arguments p_commit_ser {G C}. Arguments p_commit
 Arguments p_sign {G C}. Arguments p_rewind {G C}. Arguments p_verify {G C}.
 
 (* outcome of a wrapper that can return an error or hit a Go slice expression out of range *)
-Inductive res (A : Type) := ROk (a : A) | RErr | RPanic.
-Arguments ROk {A}. Arguments RErr {A}. Arguments RPanic {A}.
+Inductive ures (A : Type) := UOk (a : A) | UErr | UPanic.
+Arguments UOk {A}. Arguments UErr {A}. Arguments UPanic {A}.
 
-Definition zero32 : bytes := repeat x00 32.
+Definition ub_zero32 : bytes := repeat x00 32.
 
 (* copy(dst[:n], src) into a zeroed [n]byte *)
-Definition fit (n : nat) (bs : bytes) : bytes := firstn n (bs ++ repeat x00 n).
+Definition ub_fit (n : nat) (bs : bytes) : bytes := firstn n (bs ++ repeat x00 n).
 
-Definition obind {A B} (o : option A) (f : A -> option B) : option B :=
+Definition ub_obind {A B} (o : option A) (f : A -> option B) : option B :=
   match o with Some a => f a | None => None end.
 
 (* UnblindOutputResult *)
-Record unblinded := mk_unb {
+Record unb_result := mk_unb {
   u_value : N;
   u_asset : bytes;
   u_vbf : bytes;      (* ValueBlindingFactor *)
@@ -70,14 +70,14 @@ Record rp_args := mk_rpa {
   ra_minbits : Z
 }.
 
-Definition OP_RETURN : N := 0x6a.
-Definition maxScriptSize : N := 10000.
+Definition UB_OP_RETURN : N := 0x6a.
+Definition ub_maxScriptSize : N := 10000.
 
 (* isUnSpendable *)
 Definition is_unspendable (script : bytes) : bool :=
   match script with
   | [] => true
-  | b :: _ => (n8 b =? OP_RETURN) || (maxScriptSize <? lenN script)
+  | b :: _ => (n8 b =? UB_OP_RETURN) || (ub_maxScriptSize <? lenN script)
   end.
 
 (* RangeProofArgs.minValue / exp / minBits *)
@@ -108,14 +108,14 @@ Definition asset_commitment (asset factor : bytes) : option bytes :=
 
 (* valueCommitment *)
 Definition value_commitment (value : N) (generator factor : bytes) : option bytes :=
-  obind (p_gen_parse P generator) (fun g =>
+  ub_obind (p_gen_parse P generator) (fun g =>
   option_map (p_commit_ser P) (p_commit P factor value g)).
 
 (* rangeProof *)
 Definition range_proof (a : rp_args) : option bytes :=
-  obind (p_gen_blinded P (ra_asset a) (ra_abf a)) (fun g =>
+  ub_obind (p_gen_blinded P (ra_asset a) (ra_abf a)) (fun g =>
   let message := ra_asset a ++ ra_abf a in
-  obind (p_commit_parse P (ra_vcommit a)) (fun c =>
+  ub_obind (p_commit_parse P (ra_vcommit a)) (fun c =>
   p_sign P (ra_min_value a) c (ra_vbf a) (ra_nonce a) (ra_exp_eff a) (ra_minbits_eff a)
          (ra_value a) message (ra_script a) g)).
 
@@ -130,117 +130,117 @@ Definition verify_range_proof (vcommit acommit script proof : bytes) : bool :=
   end.
 
 (* unblindOutput *)
-Definition unblind_output (o : txout) (nonce : bytes) : res unblinded :=
-  if (length (o_rp o) =? 0)%nat then RErr else
+Definition unblind_output (o : txout) (nonce : bytes) : ures unb_result :=
+  if (length (o_rp o) =? 0)%nat then UErr else
   match p_commit_parse P (o_value o) with
-  | None => RErr
+  | None => UErr
   | Some c =>
     match (if (length (o_asset o) =? 33)%nat then p_gen_parse P (o_asset o)
            else p_gen_generate P (o_asset o)) with
-    | None => RErr
+    | None => UErr
     | Some g =>
       match p_rewind P c (o_rp o) nonce (o_script o) g with
-      | None => RErr
+      | None => UErr
       | Some (vbf, v, message) =>
-          if (length message <? 32)%nat then RPanic      (* message[:32] *)
-          else ROk (mk_unb v (firstn 32 message) vbf (skipn 32 message))
+          if (length message <? 32)%nat then UPanic      (* message[:32] *)
+          else UOk (mk_unb v (firstn 32 message) vbf (skipn 32 message))
       end
     end
   end.
 
 (* the !out.IsConfidential() branch shared by UnblindOutputWithKey / WithNonce *)
-Definition unblind_explicit (o : txout) : res unblinded :=
+Definition unblind_explicit (o : txout) : ures unb_result :=
   match value_from_bytes (o_value o) with
-  | None => RErr
+  | None => UErr
   | Some v => match o_asset o with
-              | [] => RPanic                            (* out.Asset[1:] *)
-              | _ :: a => ROk (mk_unb v a zero32 zero32)
+              | [] => UPanic                            (* out.Asset[1:] *)
+              | _ :: a => UOk (mk_unb v a ub_zero32 ub_zero32)
               end
   end.
 
-Definition unblind_with_key (o : txout) (blind_key : bytes) : res unblinded :=
+Definition unblind_with_key (o : txout) (blind_key : bytes) : ures unb_result :=
   if negb (is_conf_out o) then unblind_explicit o else
   match nonce_hash (o_nonce o) blind_key with
-  | None => RErr
+  | None => UErr
   | Some nonce => unblind_output o nonce
   end.
 
-Definition unblind_with_nonce (o : txout) (nonce : bytes) : res unblinded :=
-  if negb (is_conf_out o) then unblind_explicit o else unblind_output o (fit 32 nonce).
+Definition unblind_with_nonce (o : txout) (nonce : bytes) : ures unb_result :=
+  if negb (is_conf_out o) then unblind_explicit o else unblind_output o (ub_fit 32 nonce).
 
 (* ---------- issuance ids (transaction/issuance.go) ---------- *)
-Definition is_reissuance (s : issuance) : bool := negb (bytes_eqb (iss_nonce s) zero32).
+Definition ub_is_reissuance (s : issuance) : bool := negb (bytes_eqb (iss_nonce s) ub_zero32).
 Definition has_token_amount (s : issuance) : bool := (1 <? length (iss_token s))%nat.
 
-Definition compute_entropy (hash : bytes) (index : N) (contract : bytes) : option bytes :=
+Definition ub_compute_entropy (hash : bytes) (index : N) (contract : bytes) : option bytes :=
   if (length hash =? 32)%nat
   then Some (midstate256 (dsha256 (hash ++ le_enc 4 index) ++ contract))
   else None.
-Definition compute_asset (entropy : bytes) : option bytes :=
-  if (length entropy =? 32)%nat then Some (midstate256 (entropy ++ zero32)) else None.
-Definition compute_token (entropy : bytes) (flag : N) : option bytes :=
+Definition ub_compute_asset (entropy : bytes) : option bytes :=
+  if (length entropy =? 32)%nat then Some (midstate256 (entropy ++ ub_zero32)) else None.
+Definition ub_compute_token (entropy : bytes) (flag : N) : option bytes :=
   if (length entropy =? 32)%nat
   then Some (midstate256 (entropy ++ b8 (flag + 1) :: repeat x00 31))
   else None.
 
 (* NewTxIssuanceFromInput: the entropy the ids are derived from *)
 Definition issuance_entropy (i : txin) (s : issuance) : option bytes :=
-  if is_reissuance s then Some (iss_entropy s)
-  else compute_entropy (in_hash i) (in_index i) (iss_entropy s).
+  if ub_is_reissuance s then Some (iss_entropy s)
+  else ub_compute_entropy (in_hash i) (in_index i) (iss_entropy s).
 Definition calc_asset_hash (i : txin) (s : issuance) : option bytes :=
-  obind (issuance_entropy i s) compute_asset.
+  ub_obind (issuance_entropy i s) ub_compute_asset.
 Definition calc_token_hash (i : txin) (s : issuance) : option bytes :=
-  obind (issuance_entropy i s) (fun e => compute_token e 1).
+  ub_obind (issuance_entropy i s) (fun e => ub_compute_token e 1).
 
 (* one iteration of the loop of unblindIssuance *)
-Definition unblind_issuance_amount (o : txout) (key : bytes) : res unblinded :=
-  match unblind_output o (fit 32 key) with
-  | ROk u => ROk (mk_unb (u_value u) (o_asset o) (u_vbf u) zero32)
-  | RErr => RErr
-  | RPanic => RPanic
+Definition unblind_issuance_amount (o : txout) (key : bytes) : ures unb_result :=
+  match unblind_output o (ub_fit 32 key) with
+  | UOk u => UOk (mk_unb (u_value u) (o_asset o) (u_vbf u) ub_zero32)
+  | UErr => UErr
+  | UPanic => UPanic
   end.
 
 (* unblindIssuance *)
-Definition unblind_issuance (i : txin) (blind_keys : list bytes) : res (unblinded * option unblinded) :=
+Definition unblind_issuance (i : txin) (blind_keys : list bytes) : ures (unb_result * option unb_result) :=
   match blind_keys with
-  | [] | [_] => RErr
+  | [] | [_] => UErr
   | k0 :: k1 :: _ =>
     match in_iss i with
-    | None => RErr
+    | None => UErr
     | Some s =>
-      if (length (in_irp i) =? 0)%nat then RErr else
-      if has_token_amount s && (length (in_inrp i) =? 0)%nat then RErr else
+      if (length (in_irp i) =? 0)%nat then UErr else
+      if has_token_amount s && (length (in_inrp i) =? 0)%nat then UErr else
       match calc_asset_hash i s with
-      | None => RErr
+      | None => UErr
       | Some asset =>
         let oa := mk_out asset (iss_amount s) [] [] (in_irp i) [] in
         if has_token_amount s then
           match calc_token_hash i s with
-          | None => RErr
+          | None => UErr
           | Some token =>
             let ot := mk_out token (iss_token s) [] [] (in_inrp i) [] in
             match unblind_issuance_amount oa k0 with
-            | ROk ua => match unblind_issuance_amount ot k1 with
-                        | ROk ut => ROk (ua, Some ut)
-                        | RErr => RErr
-                        | RPanic => RPanic
+            | UOk ua => match unblind_issuance_amount ot k1 with
+                        | UOk ut => UOk (ua, Some ut)
+                        | UErr => UErr
+                        | UPanic => UPanic
                         end
-            | RErr => RErr
-            | RPanic => RPanic
+            | UErr => UErr
+            | UPanic => UPanic
             end
           end
         else
           match unblind_issuance_amount oa k0 with
-          | ROk ua => ROk (ua, None)
-          | RErr => RErr
-          | RPanic => RPanic
+          | UOk ua => UOk (ua, None)
+          | UErr => UErr
+          | UPanic => UPanic
           end
       end
     end
   end.
 
 (* ---------- the blinding sequences of zkp_generator.go ---------- *)
-Record blinded := mk_bl {
+Record ub_blinded := mk_bl {
   bl_asset : bytes;    (* asset commitment *)
   bl_value : bytes;    (* value commitment *)
   bl_nonce : bytes;    (* ecdh nonce handed to RangeProof *)
@@ -250,28 +250,28 @@ Record blinded := mk_bl {
 (* BlindOutputs, one output: AssetCommitment, ValueCommitment, NonceHash(out.BlindingPubkey,
    ephemeral key), RangeProof{..., Exp, MinBits} *)
 Definition blind_output (value : N) (asset abf vbf script blinding_pub eph_priv : bytes)
-           (exp minbits : Z) : option blinded :=
-  obind (asset_commitment asset abf) (fun ac =>
-  obind (value_commitment value ac vbf) (fun vc =>
-  obind (nonce_hash blinding_pub eph_priv) (fun nonce =>
-  obind (range_proof (mk_rpa value nonce asset abf (fit 32 vbf) vc script exp minbits)) (fun proof =>
+           (exp minbits : Z) : option ub_blinded :=
+  ub_obind (asset_commitment asset abf) (fun ac =>
+  ub_obind (value_commitment value ac vbf) (fun vc =>
+  ub_obind (nonce_hash blinding_pub eph_priv) (fun nonce =>
+  ub_obind (range_proof (mk_rpa value nonce asset abf (ub_fit 32 vbf) vc script exp minbits)) (fun proof =>
   Some (mk_bl ac vc nonce proof))))).
 
-(* the transaction output carrying a blinded amount *)
-Definition out_of_blinded (b : blinded) (script eph_pub sp : bytes) : txout :=
+(* the transaction output carrying a ub_blinded amount *)
+Definition out_of_blinded (b : ub_blinded) (script eph_pub sp : bytes) : txout :=
   mk_out (bl_asset b) (bl_value b) script eph_pub (bl_proof b) sp.
 
 (* BlindIssuances, one amount (asset or token): AssetCommitment(id, Zero), ValueCommitment,
    RangeProof{Nonce: blinding key, AssetBlindingFactor: Zero, ScriptPubkey: empty, Exp 0, MinBits 52} *)
-Definition blind_issuance_amount (value : N) (asset vbf key : bytes) : option blinded :=
-  obind (asset_commitment asset zero32) (fun ac =>
-  obind (value_commitment value ac vbf) (fun vc =>
-  obind (range_proof (mk_rpa value (fit 32 key) asset zero32 (fit 32 vbf) vc [] 0%Z 52%Z)) (fun proof =>
-  Some (mk_bl ac vc (fit 32 key) proof)))).
+Definition blind_issuance_amount (value : N) (asset vbf key : bytes) : option ub_blinded :=
+  ub_obind (asset_commitment asset ub_zero32) (fun ac =>
+  ub_obind (value_commitment value ac vbf) (fun vc =>
+  ub_obind (range_proof (mk_rpa value (ub_fit 32 key) asset ub_zero32 (ub_fit 32 vbf) vc [] 0%Z 52%Z)) (fun proof =>
+  Some (mk_bl ac vc (ub_fit 32 key) proof)))).
 
 (* LastValueRangeProof *)
 Definition last_value_range_proof (value : N) (asset abf vcommit vbf script nonce : bytes) : option bytes :=
-  range_proof (mk_rpa value (fit 32 nonce) asset abf (fit 32 vbf) vcommit script 0%Z 52%Z).
+  range_proof (mk_rpa value (ub_fit 32 nonce) asset abf (ub_fit 32 vbf) vcommit script 0%Z 52%Z).
 
 End Wrappers.
 
@@ -283,7 +283,7 @@ Record sign_entry := mk_se {
   se_min : N; se_commit : bytes; se_vbf : bytes; se_nonce : bytes; se_exp : Z; se_mb : Z;
   se_value : N; se_msg : bytes; se_extra : bytes; se_gen : bytes; se_proof : option bytes
 }.
-Record oracle := mk_or {
+Record ub_oracle := mk_or {
   or_ecdh : list (bytes * bytes * option bytes);        (* pub, priv -> secret *)
   or_genb : list (bytes * bytes * option bytes);        (* seed, blind -> generator *)
   or_geng : list (bytes * option bytes);                (* seed -> generator *)
@@ -336,21 +336,21 @@ Definition has_prefix (b : bytes) (p q : N) : bool :=
 (* ideal rewind: succeeds exactly on a recorded proof presented with the commitment, nonce,
    extra commitment and generator it was signed with; returns what was signed, the message
    as the binding returns it (64-byte buffer) *)
-Definition oracle_rewind (T : oracle) (c proof nonce extra g : bytes) : option (bytes * N * bytes) :=
+Definition oracle_rewind (T : ub_oracle) (c proof nonce extra g : bytes) : option (bytes * N * bytes) :=
   match find_proof (or_sign T) proof with
   | None => None
   | Some e =>
       if bytes_eqb (se_commit e) c && bytes_eqb (se_nonce e) nonce &&
          bytes_eqb (se_extra e) extra && bytes_eqb (se_gen e) g
-      then Some (se_vbf e, se_value e, fit 64 (se_msg e)) else None
+      then Some (se_vbf e, se_value e, ub_fit 64 (se_msg e)) else None
   end.
-Definition oracle_verify (T : oracle) (c proof extra g : bytes) : bool :=
+Definition oracle_verify (T : ub_oracle) (c proof extra g : bytes) : bool :=
   match find_proof (or_sign T) proof with
   | None => false
   | Some e => bytes_eqb (se_commit e) c && bytes_eqb (se_extra e) extra && bytes_eqb (se_gen e) g
   end.
 
-Definition oracle_prims (T : oracle) : prims bytes bytes :=
+Definition oracle_prims (T : ub_oracle) : prims bytes bytes :=
   mk_prims bytes bytes
     sha256
     (lookup2 (or_ecdh T))
@@ -366,13 +366,13 @@ Definition oracle_prims (T : oracle) : prims bytes bytes :=
     (oracle_verify T).
 
 (* entry points for the driver *)
-Definition o_nonce_hash (T : oracle) := nonce_hash (oracle_prims T).
-Definition o_asset_commitment (T : oracle) := asset_commitment (oracle_prims T).
-Definition o_value_commitment (T : oracle) := value_commitment (oracle_prims T).
-Definition o_range_proof (T : oracle) := range_proof (oracle_prims T).
-Definition o_verify_range_proof (T : oracle) := verify_range_proof (oracle_prims T).
-Definition o_blind_output (T : oracle) := blind_output (oracle_prims T).
-Definition o_blind_issuance_amount (T : oracle) := blind_issuance_amount (oracle_prims T).
-Definition o_unblind_with_key (T : oracle) := unblind_with_key (oracle_prims T).
-Definition o_unblind_with_nonce (T : oracle) := unblind_with_nonce (oracle_prims T).
-Definition o_unblind_issuance (T : oracle) := unblind_issuance (oracle_prims T).
+Definition o_nonce_hash (T : ub_oracle) := nonce_hash (oracle_prims T).
+Definition o_asset_commitment (T : ub_oracle) := asset_commitment (oracle_prims T).
+Definition o_value_commitment (T : ub_oracle) := value_commitment (oracle_prims T).
+Definition o_range_proof (T : ub_oracle) := range_proof (oracle_prims T).
+Definition o_verify_range_proof (T : ub_oracle) := verify_range_proof (oracle_prims T).
+Definition o_blind_output (T : ub_oracle) := blind_output (oracle_prims T).
+Definition o_blind_issuance_amount (T : ub_oracle) := blind_issuance_amount (oracle_prims T).
+Definition o_unblind_with_key (T : ub_oracle) := unblind_with_key (oracle_prims T).
+Definition o_unblind_with_nonce (T : ub_oracle) := unblind_with_nonce (oracle_prims T).
+Definition o_unblind_issuance (T : ub_oracle) := unblind_issuance (oracle_prims T).
